@@ -11,6 +11,8 @@ def drive_and_judge(rep, prop, cases, family, keep, enforce=None, detail=0, extr
     if not cases:
         return
     by_id = {c["id"]: c for c in cases}
+    for c in cases:
+        rep.how.setdefault(c.get("family", ""), {"mode": "gen", "keep": keep, "enforce": enforce or prop, "case_timeout": case_timeout})
     trace = run_vdriver(cases, "%s_%s" % (prop, family), keep=keep, detail=detail, case_timeout=case_timeout)
     tr = validate_trace(trace, enforce or prop, env=extra_env)
     rep.evaluations += len(cases)
@@ -19,6 +21,28 @@ def drive_and_judge(rep, prop, cases, family, keep, enforce=None, detail=0, extr
     handle_verdicts(rep, tr, by_id, family)
     for c in cases[:2]:
         rep.sample({"family": family, "case": c})
+
+
+def replay(prop, path):
+    """re-run the recorded failing case through the same engine and judge it again"""
+    r = json.load(open(path))
+    case, how = r.get("case"), r.get("how")
+    if not case or not how:
+        log("this replay file records a history / schedule check: re-running the whole quick check of %s" % prop)
+        return CHECKS[prop]("quick", int(os.environ.get("VERIF_SEED", "1")))
+    rep = Report(prop, "quick", 0)
+    if how["mode"] == "gen":
+        drive_and_judge(rep, prop, [case], "replay", how.get("keep"), enforce=how.get("enforce"), case_timeout=how.get("case_timeout"))
+    else:
+        compiled_and_judge(rep, prop, [case], "replay", how["flavor"], set(how.get("want", [])), keep=how.get("keep"), enforce=how.get("enforce"))
+    for v, c in rep.violations:
+        print("VIOLATION property=%s replay=%s" % (prop, path))
+        log("  %s" % v.get("msg", "")[:800])
+    for f, v in rep.known:
+        print("KNOWN-FINDING: property=%s %s [%s]" % (prop, f["text"], f["id"]))
+    if rep.oracle_disagreements or rep.proj_failures:
+        return 2
+    return 1 if rep.violations else 0
 
 
 def check_C11(tier, seed):
@@ -611,6 +635,8 @@ def compiled_and_judge(rep, prop, cases, family, flavor, want, keep=None, enforc
     if not cases:
         return
     by_id = {c["id"]: c for c in cases}
+    for c in cases:
+        rep.how.setdefault(c.get("family", ""), {"mode": "compiled", "flavor": flavor, "want": sorted(want), "keep": keep, "enforce": enforce or prop})
     trace = compiled.run_compiled(cases, "%s_%s" % (prop, family), flavor, want, keep=keep)
     tr = validate_trace(trace, enforce or prop, chunk_lines=3000)
     rep.evaluations += len(cases)
